@@ -21,7 +21,7 @@ func (c18) ID() string { return "C18" }
 
 func (c18) Budget(tier string) int {
 	if tier == "thorough" {
-		return 30000
+		return 120000
 	}
 	return 4800
 }
